@@ -90,6 +90,29 @@ func (sf ScrubFields) Clean(payload map[string]interface{}) {
 	return
 }
 
+// cleanList cleans the objects of a list (of lists ...) and tells whether nothing but emptied objects is left in it
+func (sf ScrubFields) cleanList(list []interface{}, path []string, fields map[string][]string) bool {
+	removeParent := true
+	for _, x := range list {
+		switch vv := x.(type) {
+		case map[string]interface{}:
+			toCleanParent := sf.clean(vv, path, fields)
+			removeParent = removeParent && toCleanParent
+		case []interface{}:
+			// a list of lists: its objects are cleaned, the lists themselves stay
+			sf.cleanList(vv, path, fields)
+			removeParent = false
+		default:
+			// a null entry is data the client asked for: keep the list
+			removeParent = false
+		}
+	}
+	if len(list) == 0 {
+		removeParent = false
+	}
+	return removeParent
+}
+
 func (sf ScrubFields) clean(payload map[string]interface{}, path []string, fields map[string][]string) bool {
 	if len(path) == 0 {
 		if tn, ok := payload[common.TypenameFieldName].(string); ok {
@@ -120,18 +143,7 @@ func (sf ScrubFields) clean(payload map[string]interface{}, path []string, field
 	case map[string]interface{}:
 		removeParent = sf.clean(v, path[1:], fields)
 	case []interface{}:
-		for _, x := range v {
-			if vv, ok := x.(map[string]interface{}); ok {
-				toCleanParent := sf.clean(vv, path[1:], fields)
-				removeParent = removeParent && toCleanParent
-			} else {
-				// a null entry is data the client asked for: keep the list
-				removeParent = false
-			}
-		}
-		if len(v) == 0 {
-			removeParent = false
-		}
+		removeParent = sf.cleanList(v, path[1:], fields)
 	case []map[string]interface{}:
 		for _, vv := range v {
 			toCleanParent := sf.clean(vv, path[1:], fields)
